@@ -684,6 +684,14 @@ class Interp(ExprMixin, WhileMixin):
 
     def store_attr(self, base: V, attr: str, v: V, module: Module, node: ast.AST):
         if isinstance(base, ObjV):
+            prop = self.find_property(base.cls, attr)
+            if prop is not None:
+                ci, getter, setter = prop
+                if setter is None:
+                    self.may_raise("builtins.AttributeError", f"property {attr} has no setter", definite=True)
+                    raise _Raise(self.make_exc("builtins.AttributeError"), self.cur_where)
+                self.call_function(ci.module, setter, [base, v], {}, ci.qual)  # assignment goes through the property's setter
+                return
             base.attrs[attr] = v
             self.event("store_attr", obj=base.label, cls=base.cls, attr=attr, value=v)
         elif isinstance(base, TokV):
